@@ -60,7 +60,7 @@ def cases(prop, tier, seed):
     elif prop == "C07":
         # modes 1-3 offer labeled samples as candidates as well: inner strategies must accept arbitrary index sets (sample-wise scoring)
         inner = ["RandomSampling", "US-least_confident", "US-margin", "US-entropy", "ProbabilisticAL", "QBC-KL", "QBC-vote_entropy", "GreedyBALD",
-                 "EpistemicUS"]
+                 "EpistemicUS", "TypiClust"]          # TypiClust: utilities of -inf for samples outside the chosen cluster
         for name in inner + ["IntervalEstimationThreshold"]:
             for t in range(25 * reps):
                 out.append(dict(kind="C07", inner=name, dseed=int(rs.randint(1 << 30)), n=int(rs.randint(3, 9)), a=int(rs.randint(1, 5)),
@@ -98,6 +98,29 @@ def run_c19(case, fail):
     speed = case["clf"] == "PWC-speedup"
     clf = mk_clf(case["clf"])
     native = hasattr(clf, "partial_fit") and not case["ignore_pf"]
+    if case["clf"].startswith("PWC") and case["t"] % 2 == 0:
+        # a wrapper around a classifier that is fitted already: before the first fit through the wrapper its predictions are those of the
+        # given classifier (labels from predict, probabilities from predict_proba, frequencies from predict_freq), with or without speed-up
+        pre = mk_clf(case["clf"])
+        lab = ~np.isnan(y)
+        if lab.sum() >= 2:
+            pre.fit(X, y)
+            import warnings as _w
+            with _w.catch_warnings():
+                _w.simplefilter("ignore")
+                iw0 = IndexClassifierWrapper(pre, X, y, use_speed_up=speed)
+                qi = rs.permutation(n)[:5]
+                for meth in ("predict", "predict_proba", "predict_freq"):
+                    try:
+                        got = np.asarray(getattr(iw0, meth)(qi))
+                        want = np.asarray(getattr(pre, meth)(X[qi]))
+                    except Exception as e:
+                        fail("C19.prefitted_predict_raised", f"{meth}: {type(e).__name__}: {str(e)[:100]}")
+                        break
+                    if got.shape != want.shape or not np.allclose(got.astype(float), want.astype(float), equal_nan=True):
+                        fail("C19.prefitted_wrapper_differs_from_the_classifier", f"{meth} of the wrapper has shape {got.shape}, the classifier's own {meth} "
+                                                                                 f"{want.shape} (use_speed_up={speed})")
+                        break
     iw = IndexClassifierWrapper(clf, X, y, sample_weight=w, ignore_partial_fit=case["ignore_pf"], enforce_unique_samples=case["unique"],
                                 use_speed_up=speed)
     if speed:
@@ -461,7 +484,15 @@ def run_c07(case, fail):
             z = ZOO[name]
             if mode == 4 and not z["rows"]:
                 return
-            qs = SingleAnnotatorWrapper(make_strategy(name, case["sseed"]), random_state=case["sseed"])
+            # every fourth case re-encodes the labels: -1 as sentinel, or strings with the sentinel 'none' (the availability of a pair
+            # and everything judged below is the same; the wrapper aggregates with its own missing_label)
+            ml_q, classes_q, Yq = NAN, (0, 1), Y
+            if case["t"] % 8 == 3:
+                ml_q, Yq = -1, np.where(np.isnan(Y), -1.0, Y)
+            elif case["t"] % 8 == 7:
+                ml_q, classes_q = "none", ("a", "b")
+                Yq = np.where(np.isnan(Y), "none", np.where(Y == 0, "a", "b")).astype("U4")
+            qs = SingleAnnotatorWrapper(make_strategy(name, case["sseed"], ml_q, classes_q), missing_label=ml_q, random_state=case["sseed"])
             naps = case["naps"]
             if case["t"] % 3 == 2:
                 # array-valued request: entry i for the i-th sample of the ranking, the last entry for all later samples (documented)
@@ -469,8 +500,8 @@ def run_c07(case, fail):
                 naps = [int(v) for v in rs_n.randint(1, 4, size=int(rs_n.randint(1, 4)))]
                 if len(naps) >= 2 and len(set(naps)) == 1:
                     naps[0] = naps[0] % 3 + 1            # non-constant requests are the interesting ones
-            q, U = qs.query(X, Y, candidates=cand, annotators=annot, batch_size=case["b"], n_annotators_per_sample=naps,
-                            return_utilities=True, **z["kwargs"](NAN, (0, 1), case["sseed"]))
+            q, U = qs.query(X, Yq, candidates=cand, annotators=annot, batch_size=case["b"], n_annotators_per_sample=naps,
+                            return_utilities=True, **z["kwargs"](ml_q, classes_q, case["sseed"]))
     except _NoTermination:
         if case["kind"] == "C05":
             return          # termination is C07's business (known finding there)
